@@ -291,8 +291,41 @@ def gen_str(rng, key):
         rng.choice(WORDS if rng.random() < 0.1 else WORDS[:-1] + [""])
 
 
-def gen_value(rng, key, tag):
-    """abstract value: Python object in the TOML data model"""
+def default_spellings(key, tag, default, sentinels=()):
+    """Boundary values of an option that come from the code rather than from its type: the option's
+    own *default* written out explicitly (a user may well write `favicon: favicon.png` or
+    `src_dir: ./src`), and every constant the code compares the option against (the regenerated
+    sentinel table of `normalise_paths`) - for paths in the spellings that name the same file
+    (`x`, `./x`, `x/`, `.//x`, `sub/../x`).  Written values, so: what the property says about any
+    written value holds for them.  Only values writable in all three formats."""
+    out = []
+    if tag in ("path", "optPath"):
+        cands = ([str(default)] if isinstance(default, PurePath) else []) + [sn for f, _, sn, _ in sentinels if f == key]
+        for d in dict.fromkeys(cands):
+            out += [d, "./" + d, ".//" + d, "sub/../" + d] + ([d + "/"] if not d.endswith("/") else [])
+    elif tag in ("str", "optStr"):
+        if isinstance(default, str) and default == default.strip():
+            out.append(default)
+    elif tag in ("bool", "int"):
+        if isinstance(default, (bool, int)):
+            out.append(default)
+    elif tag in ("listStr", "plainList", "listPath"):
+        if isinstance(default, list) and default and all(isinstance(x, (str, PurePath)) and str(x).strip() == str(x) and str(x)
+                                                         for x in default):
+            out.append([str(x) for x in default])
+            if tag == "listPath":
+                out.append(["./" + str(x) for x in default])
+    elif tag == "dictStr":
+        if isinstance(default, dict) and default and all(isinstance(x, str) for x in default.values()):
+            out.append(dict(default))
+    return out
+
+
+def gen_value(rng, key, tag, specials=()):
+    """abstract value: Python object in the TOML data model; `specials`: the option's code-derived
+    boundary values (default_spellings), drawn now and then"""
+    if specials and rng.random() < 0.12:
+        return rng.choice(specials)
     if tag == "bool":
         return rng.random() < 0.5
     if tag == "int":
@@ -537,6 +570,7 @@ class Ctx:
         self.proj, self.pkg = proj, pkg
         self.fields = {n: tag for n, tag, _ in tables["schema"]}
         self.cli = {e[0]: (e[1], e[2]) for e in tables["cli"]}
+        self.specials = {n: default_spellings(n, tag, d, tables.get("sentinels", ())) for n, tag, d in tables["schema"]}
         self.pending = []   # (model request, impl obs, description)
         self.eff_cmd = "c15.eff"   # "c15.effr": variant `repaired` of the extra_mods merge (decided in run())
         self.hist = {}
@@ -680,7 +714,7 @@ def well_typed_case(cx: Ctx, opts, cli, tag):
             # also when the clash is with the *default* of an option that only --config sets)
             cross = "docmark" in key or "extensions" in key or key in ("extra_mods", "external")
             if (key, t, v) in over and (cross or rng.random() < 0.7):
-                base.append((key, t, v if cross else gen_value(rng, key, t)))
+                base.append((key, t, v if cross else gen_value(rng, key, t, cx.specials.get(key, ()))))
             elif (key, t, v) not in over:
                 base.append((key, t, v))
         ckw = {k: kw[k] for k, _, _ in over}
@@ -1117,7 +1151,8 @@ def run(tier: str, seed: int, replay: str | None = None) -> int:
     for b in lean.broken():
         rep.tie_broken("proof: " + b)
     ford = common.import_ford()
-    tables = holder.get("t") or tr.extract()
+    # (translate() failed = already a broken tie; the oracle is still evaluated on the implementation)
+    tables = holder.get("t") or tr.extract(strict=False)
     rng = random.Random(seed * 7919 + 15)
     drv = Driver()
     quick = tier == "quick"
@@ -1162,6 +1197,14 @@ def run(tier: str, seed: int, replay: str | None = None) -> int:
                 opts = [(name, tag, v)]
                 runs = well_typed_case(cx, opts, {}, "single")
                 defaults_oracle(cx, baseline, opts, {}, runs)
+            # the option's default written out explicitly / the constants the code compares it with
+            for v in cx.specials.get(name, ()):
+                if name == "creation_date":
+                    v = v.replace("%", "pc")
+                opts = [(name, tag, v)]
+                cx.count("single:default-spelling")
+                runs = well_typed_case(cx, opts, {}, "single")
+                defaults_oracle(cx, baseline, opts, {}, runs)
             cx.flush()
         # ---- combo
         for k in range(n_combo):
@@ -1169,7 +1212,7 @@ def run(tier: str, seed: int, replay: str | None = None) -> int:
             chosen = rng.sample(usable, m)
             opts = []
             for name, tag in chosen:
-                v = gen_value(rng, name, tag)
+                v = gen_value(rng, name, tag, cx.specials.get(name, ()))
                 if name == "creation_date":
                     v = v.replace("%", "pc")
                 opts.append((name, tag, v))
